@@ -63,6 +63,46 @@ func implStream(stream []byte) (out []delivered, fault string) {
 	return
 }
 
+// implHandleMessages runs the real Handler.HandleMessages over one stream on
+// the given handler: pre-filled closed input channel, output channel with room
+// for everything.  It returns what was delivered; fault is "" or a description.
+func implHandleMessages(h *handler.Handler, stream []byte) (out []handler.Message, fault string) {
+	in := make(chan byte, len(stream)+1)
+	for _, b := range stream {
+		in <- b
+	}
+	close(in)
+	ch := make(chan handler.Message, len(stream)+8)
+	done := make(chan string, 1)
+	go func() {
+		cl, site, p := guard(func() { h.HandleMessages(in, ch) })
+		if p {
+			done <- "panic " + cl + "@" + site
+			return
+		}
+		done <- ""
+	}()
+	select {
+	case fault = <-done:
+	case <-time.After(120 * time.Second):
+		return nil, "HandleMessages-did-not-return"
+	}
+	if fault != "" {
+		return nil, fault
+	}
+	for {
+		select {
+		case m, ok := <-ch:
+			if !ok {
+				return out, ""
+			}
+			out = append(out, m)
+		default:
+			return out, "output-channel-not-closed-when-HandleMessages-returned"
+		}
+	}
+}
+
 func segsEqual(got []delivered, want []ref.Seg) bool {
 	if len(got) != len(want) {
 		return false
